@@ -84,7 +84,7 @@ RefUnary(x, s) ==
          ELSE IF s.term = "C" /\ Len(it) % a # 0
               THEN S(Append(RChunks(a, it), L(Rest(a, it))), "C", U)
               ELSE Items(s, RChunks(a, it))
-    [] o = "collect" -> AtEnd(s, <<L(it)>>)
+    [] o = "collect" -> AtEnd(s, <<L(PL(x) \o it)>>)
     [] o = "take" ->
          IF a = 0 THEN S(<<>>, s.term, s.ev)       \* see AMBIGUOUS.md: take(0) ends with its source
          ELSE Cut(s, FirstN(a, it), Len(it) >= a)
